@@ -155,15 +155,15 @@ CHECKS = {
     "C03": dict(
         category="proof",
         text=("Lean theorem (Edn.Properties.C03): an inductive relation Renders (Edn.Spec.Renders) says which byte strings spell which values "
-              "of the data model - nil, booleans, decimal integers (int64 range -> int, beyond or N suffix -> big integer keeping sign and digits), "
+              "of the data model - nil, booleans, decimal integers (int64 range -> int, beyond or N suffix -> big integer keeping sign and digits), floats (the double nearest to the "
+              "token's exact decimal value), big decimals, "
               "strings with every escape of the build, characters (named, \\uXXXX, printable), keywords, symbols, lists, vectors, sets and maps with "
               "pairwise distinct elements/keys, tagged elements, any mix of the 11 whitespace bytes, commas, comments and discarded forms between "
               "forms - and for every derivation within the nesting limit edn_read accepts the bytes, consumes exactly them and returns a tree "
-              "with exactly that content (kinds, payloads, order, counts, tag bytes), at every depth and in discard mode too. Floats are covered by "
-              "C05's correctly-rounded theorem. Tied to the code by the correspondence run; a grammar sampler derived from docs/edn.ebnf and the "
+              "with exactly that content (kinds, payloads, order, counts, tag bytes), at every depth and in discard mode too. Tied to the code by the correspondence run; a grammar sampler derived from docs/edn.ebnf and the "
               "value generator feed accepted documents whose expected tree is known; the 11 listed grammar-vs-reader differences are known findings."),
         design_ref="DESIGN.md section 6, C03",
-        note=NOTE_COMMON + " Renders is my reading of the EDN specification; float, ratio and extension spellings are outside it (floats: C05; extensions: correspondence only).",
+        note=NOTE_COMMON + " Renders is my reading of the EDN specification; ratio and other extension spellings are outside it (number classes of the Clojure flag: C04 theorems; the rest: correspondence only).",
         technique="Lean 4 proof (mutual structural induction over rendering derivations; token lemmas per kind) + correspondence check + grammar sampler / expected-tree oracle",
     ),
     "C10": dict(
